@@ -81,10 +81,15 @@ def gen_case(run_seed, tier):
         "noise": sz.random() < 0.25 and g[0] <= 5,
         "sort_result": sz.random() < 0.5,
         "shuffle_edges": sz.random() < 0.35,
+        "again": ([sz.choice(["relabelled", "relabelled", "resolve"]), sz.randrange(10**6)] if sz.random() < 0.3 and not big else None),
     }
 
 
 def simplify(case):
+    if case.get("again"):
+        c = dict(case)
+        c["again"] = None
+        yield c
     for key in ("n_iso", "n_lc"):
         if case[key] > 1:
             c = dict(case)
@@ -111,7 +116,47 @@ def simplify(case):
 def run_case(case):
     warnings.filterwarnings("ignore")
     ctx = Ctx(ID)
-    n, edges = case["n"], [tuple(e) for e in case["edges"]]
+    n = case["n"]
+    lib = random.Random(case["lseed"])
+    seam = OwnedRNG(lib, outcomes=OutcomeScript([], fallback=random.Random(case["lseed"] + 1)), ctx=ctx,
+                    buggify=case["bug_rate"] > 0, bug_rate={"rng_duplicate": case["bug_rate"], "rng_extreme": case["bug_rate"] / 2}, bug_rng=random.Random(case["lseed"] + 2))
+    first = _round(ctx, case, seam, [tuple(e) for e in case["edges"]], "", None)
+    if first is None or isinstance(first, dict):
+        return ctx.result(False, sample=first if isinstance(first, dict) else case)
+    solver, n_entries, flags = first
+    again = case.get("again")
+    if again and not ctx.violations:
+        if again[0] == "relabelled":
+            # a second target in the same process: the first one with its vertices renamed (a fresh solver object);
+            # whatever the library remembered from the first target must not leak into this answer
+            perm = list(range(n))
+            random.Random(again[1]).shuffle(perm)
+            edges2 = sorted((min(perm[a], perm[b]), max(perm[a], perm[b])) for a, b in case["edges"])
+            ctx.probe("second_target_relabelled_copy")
+            second = _round(ctx, case, seam, edges2, "second target: ", None)
+        else:
+            # the same solver object asked again after its seed was changed
+            ctx.probe("solver_object_solved_twice")
+            try:
+                solver.seed = again[1] % 1000
+            except Exception:
+                pass
+            second = _round(ctx, case, seam, [tuple(e) for e in case["edges"]], "second solve(): ", solver)
+        if second is not None and not isinstance(second, dict):
+            n_entries = max(n_entries, second[1])
+            flags = {k: flags[k] or second[2][k] for k in flags}
+    if flags["lc"]:
+        ctx.probe("entry_with_lc_graph_different")
+    if flags["perm"]:
+        ctx.probe("entry_with_nonidentity_map")
+    nontrivial = n_entries >= 2 and flags["lc"] and flags["perm"]
+    return ctx.result(nontrivial, sample={k: case[k] for k in ("n", "edges", "method", "n_iso", "n_lc", "depth", "seed", "present")} | {"entries": n_entries, "again": case.get("again")})
+
+
+def _round(ctx, case, seam, edges, tag0, solver):
+    """one target (or one more solve() of a solver object): solve and judge every entry; returns (solver, number of
+    entries, flags), None after a violation, or a dict (sample) when the round was skipped"""
+    n = case["n"]
     G = graphs.to_nx((n, edges), edge_order_seed=(case["lseed"] + 17) if case.get("shuffle_edges") else None)
     if case.get("shuffle_nodes") and case["present"] in ("nx", "g"):
         # same labelled graph, vertices inserted in another order (the relabel map must then still be an isomorphism
@@ -122,13 +167,10 @@ def run_case(case):
         G.add_nodes_from(order)
         G.add_edges_from(edges)
         ctx.probe("target_nodes_inserted_unsorted")
-    lib = random.Random(case["lseed"])
     sig = {"method": case["method"], "present": case["present"]}
     ctx.probe("target_as_" + case["present"])
     if case["seed"] is None:
         ctx.probe("seedless")
-    seam = OwnedRNG(lib, outcomes=OutcomeScript([], fallback=random.Random(case["lseed"] + 1)), ctx=ctx,
-                    buggify=case["bug_rate"] > 0, bug_rate={"rng_duplicate": case["bug_rate"], "rng_extreme": case["bug_rate"] / 2}, bug_rng=random.Random(case["lseed"] + 2))
     with seam:
         try:
             if case["present"] == "nx":
@@ -142,9 +184,11 @@ def run_case(case):
                     target.convert_representation("s")
         except Exception as e:
             ctx.probe("target_construction_failed")
-            return ctx.result(False, sample={"skipped": repr(e)})
+            return {"skipped": repr(e)}
         try:
-            if case["default_solver"]:
+            if solver is not None:
+                pass
+            elif case["default_solver"]:
                 solver = AlternateTargetSolver(target=target, seed=case["seed"])
                 ctx.probe("default_setting_solver")
             else:
@@ -164,14 +208,14 @@ def run_case(case):
         except Exception as e:
             ctx.violate("unexpected_exception", 0, f"AlternateTargetSolver(method={case['method']}, n_iso={case['n_iso']}, n_lc={case['n_lc']}, seed={case['seed']}, target as {case['present']}) on edges {edges}: {type(e).__name__}: {e}",
                         dict(sig, exc=type(e).__name__))
-            return ctx.result(False, sample=case)
+            return None
     ctx.steps += 1
     A0 = gref.adj_from_edges(n, edges)
     entries = list(res)
     ctx.log("solved", case["method"], len(entries))
     if not entries:
-        ctx.violate("A_no_entry", 1, "solve() returned an empty result list", sig)
-        return ctx.result(False, sample=case)
+        ctx.violate("A_no_entry", 1, f"{tag0}solve() returned an empty result list", sig)
+        return None
     if len(entries) >= 2:
         ctx.probe("entries_ge_2")
     flags = {"lc": False, "perm": False}
@@ -224,7 +268,7 @@ def run_case(case):
             ctx.log("entry", i, perm, sorted(g_i.edges))
         return True
 
-    ok_all = judge(entries, "", False)
+    ok_all = judge(entries, tag0, False)
     if ok_all:
         # solver.result mirrors the returned list
         try:
@@ -249,11 +293,7 @@ def run_case(case):
             rows = None
             ctx.violate("A_result_attr_mismatch", -1, f"solver.result.sort_by('score') failed: {e!r}", sig)
         if rows is not None:
-            judge(rows, "after sort_by: ", True)
-    has_lc_diff, has_perm = flags["lc"], flags["perm"]
-    if has_lc_diff:
-        ctx.probe("entry_with_lc_graph_different")
-    if has_perm:
-        ctx.probe("entry_with_nonidentity_map")
-    nontrivial = len(entries) >= 2 and has_lc_diff and has_perm
-    return ctx.result(nontrivial, sample={k: case[k] for k in ("n", "edges", "method", "n_iso", "n_lc", "depth", "seed", "present")} | {"entries": len(entries)})
+            judge(rows, tag0 + "after sort_by: ", True)
+    if ctx.violations:
+        return None
+    return solver, len(entries), flags
